@@ -3,6 +3,7 @@ package main
 import (
 	"fmt"
 	"os"
+	"runtime"
 	"path/filepath"
 	"sort"
 	"strconv"
@@ -14,6 +15,7 @@ import (
 	"github.com/criyle/go-sandbox/ptracer"
 	"github.com/criyle/go-sandbox/runner"
 	"github.com/elastic/go-seccomp-bpf/arch"
+	"golang.org/x/sys/unix"
 )
 
 func init() { props["C03"] = runC03 }
@@ -349,6 +351,52 @@ func runC03(res *Result, d *Driver, tier string, seed uint64) {
 			res.Mismatch(Mismatch{Kind: "oracle", What: "traced run vs Model.Verdict.runOps: values seen by the program, directories created, verdict (C03_effects_were_allowed / C03_kill_ends_run / C03_ban_seen / C03_allowed_executes)", Input: script + " || decisions " + strings.Join(mops, ","), Impl: impl, Model: want, Oracle: oracle, Key: c03Key(g.ops, gotStatus, mStatus)})
 		}
 		os.RemoveAll(work)
+	}
+	// a killed call must not execute even when the tracee gets the CPU the moment it is resumed: tracer and tracee share
+	// one CPU here, so that a tracee resumed before it is killed runs its syscall first
+	{
+		nK := 60
+		if tier == "thorough" {
+			nK = 600
+		}
+		work, _ := os.MkdirTemp("", "verif-c03k-")
+		work, _ = filepath.EvalSymlinks(work)
+		executed := 0
+		notDisallowed := 0
+		doneK := make(chan struct{})
+		go func() {
+			defer close(doneK)
+			runtime.LockOSThread() // the affinity below is this thread's; the tracee inherits it
+			var old, one unix.CPUSet
+			unix.SchedGetaffinity(0, &old)
+			one.Set(0)
+			for c := 0; c < 1024; c++ {
+				if old.IsSet(c) {
+					one.Zero()
+					one.Set(c)
+					break
+				}
+			}
+			unix.SchedSetaffinity(0, &one)
+			defer unix.SchedSetaffinity(0, &old)
+			for i := 0; i < nK; i++ {
+				h := &c03Handler{byID: map[int]string{0: "k"}, byName: map[string]string{}, workdir: work}
+				r, _ := runPtraceProbe(RunSpec{Script: "sys 258 fdcwd64 s:m0 493; exit 0", Filter: filter, Handler: h, WorkDir: work})
+				if r.Status != runner.StatusDisallowedSyscall {
+					notDisallowed++
+				}
+				if _, err := os.Stat(filepath.Join(work, "m0")); err == nil {
+					executed++
+					os.Remove(filepath.Join(work, "m0"))
+				}
+				res.Case(fmt.Sprintf("kill-race %d", i), true, "kill-race")
+			}
+		}()
+		<-doneK
+		os.RemoveAll(work)
+		if executed > 0 || notDisallowed > 0 {
+			res.Mismatch(Mismatch{Kind: "oracle", What: "a syscall the handler kills took effect (the tracee was resumed before it was killed) or the run did not end as Disallowed Syscall (C03_kill_ends_run)", Input: fmt.Sprintf("%d runs of `sys 258 (mkdirat) m0` with verdict kill, tracer and tracee on one CPU", nK), Impl: fmt.Sprintf("directory created in %d runs; %d runs not Disallowed Syscall", executed, notDisallowed), Model: "never created; always Disallowed Syscall", Oracle: "violates"})
+		}
 	}
 	res.Sample("fork; sys 258 fdcwd64 s:m0 493 [ban]; endfork; wait; sys 258 fdcwd64 s:m1 493 [allow]; exit 0 -> lines [sys 258 = -1 13, sys 258 = 0 0] dirs [m1] status normal")
 }
